@@ -564,6 +564,11 @@ func c12Declarations(rng *rand.Rand, systematic bool, n int) []*c12Decl {
 		}
 		presence("key/custom", func() *jT { return &jT{Kind: kKey, KeyFmt: "custom", KeyCustom: "^[a-z]{3}$"} })
 		add("key/primary", &jF{T: tKeyF("id62").with(func(t *jT) { t.Primary = pB(true) })})
+		// a key that spells out that it is not the primary key: nothing but its format constrains it
+		for _, kf := range []string{"", "id62", "uuid", "informal"} {
+			kf := kf
+			presence("key-primary-false/"+kf, func() *jT { return tKeyF(kf).with(func(t *jT) { t.Primary = pB(false) }) })
+		}
 		for _, f := range []string{"INT32", "INT64", "UINT32", "UINT64"} {
 			f := f
 			presence("integer-"+f+"/none", func() *jT { return tInt(f) })
@@ -603,6 +608,9 @@ func c12Declarations(rng *rand.Rand, systematic bool, n int) []*c12Decl {
 		}, enumOpts...)
 		presence("enum/not-in", func() *jT {
 			return tRef(kEnum, "Color", "c.v1.Color").with(func(t *jT) { t.Rules = &jRules{NotIn: []string{"GREEN"}} })
+		}, enumOpts...)
+		presence("enum/in-and-not-in", func() *jT {
+			return tRef(kEnum, "Color", "c.v1.Color").with(func(t *jT) { t.Rules = &jRules{In: []string{"RED", "BLUE"}, NotIn: []string{"BLUE", "GREEN"}} })
 		}, enumOpts...)
 		presence("enum/in-unspecified", func() *jT {
 			return tRef(kEnum, "Color", "c.v1.Color").with(func(t *jT) { t.Rules = &jRules{In: []string{"UNSPECIFIED", "RED"}} })
